@@ -392,6 +392,13 @@ class IndexedSet(MutableSet):
     def iter_slice(self, start, stop, step=None):
         "iterate over a slice of the set"
         iterable = self
+        if step is not None:
+            step = operator.index(step)
+        if step is None or step > 0:
+            # as for lists, the bounds may be any integers (beyond the
+            # length, beyond sys.maxsize) or objects with __index__
+            start, stop, step = slice(start, stop, step).indices(len(self))
+            return islice(iterable, start, stop, step)
         # iteration below already skips removed items, so the bounds are
         # apparent positions; only negative ones need normalizing
         if start is not None and start < 0:
